@@ -27,6 +27,7 @@ import (
 const (
 	acctModule = 100
 	acctFeeCol = 101
+	acctGov    = 102 // x/gov module account: the authority of MsgUpdateParams
 	acctOthers = 999 // everything outside the universe: supply minus the universe's balances
 	nActors    = 4   // 0,1,2 users; 3 a separate recipient
 	maxPools   = 3
@@ -68,6 +69,8 @@ func acctAddr(a int) sdk.AccAddress {
 		return authtypes.NewModuleAddress(coinswaptypes.ModuleName)
 	case a == acctFeeCol:
 		return authtypes.NewModuleAddress(authtypes.FeeCollectorName)
+	case a == acctGov:
+		return authtypes.NewModuleAddress("gov")
 	case a > 1000:
 		return coinswaptypes.GetReservePoolAddr(fmt.Sprintf("lpt-%d", a-1000))
 	}
@@ -98,6 +101,7 @@ type Params struct {
 //	remu: A, D1 counterparty, D2 token, X1 min token, X2 exact liquidity
 //	send: A from, B to, D1/X1 coin
 //	block: Dt seconds
+//	params: A authority, P the new parameters (MsgUpdateParams)
 type Step struct {
 	K        string
 	Buy      bool   `json:",omitempty"`
@@ -110,6 +114,7 @@ type Step struct {
 	X3       string `json:",omitempty"`
 	Deadline int64  `json:",omitempty"`
 	Dt       int64  `json:",omitempty"`
+	P        *Params `json:",omitempty"`
 }
 
 type Kernel struct {
@@ -237,8 +242,24 @@ func (st Step) msg() sdk.Msg {
 			ExactLiquidity: si(st.X2), Deadline: st.Deadline, Sender: acctStr(st.A)}
 	case "send":
 		return &banktypes.MsgSend{FromAddress: acctStr(st.A), ToAddress: acctStr(st.B), Amount: sdk.Coins{coin(st.D1, st.X1)}}
+	case "params":
+		// built field by field: out-of-range values must reach ValidateBasic / SetParams
+		return &coinswaptypes.MsgUpdateParams{Authority: acctStr(st.A), Params: coinswaptypes.Params{
+			Fee: decOf(st.P.Fee), TaxRate: decOf(st.P.Tax), UnilateralLiquidityFee: decOf(st.P.UFee),
+			PoolCreationFee: coin(st.P.CDenom, st.P.CAmt)}}
 	}
 	return nil
+}
+
+func coqParams(p Params) string {
+	return lib.App("mkParams", lib.ZB(bi(p.Fee)), lib.ZB(bi(p.UFee)), lib.ZB(bi(p.Tax)), lib.Z(int64(p.CDenom)), lib.ZB(bi(p.CAmt)))
+}
+
+// the module parameters as stored now, in the model's vocabulary
+func (w *world) params() Params {
+	q := w.k.GetParams(w.e.Ctx)
+	return Params{Fee: q.Fee.BigInt().String(), UFee: q.UnilateralLiquidityFee.BigInt().String(), Tax: q.TaxRate.BigInt().String(),
+		CDenom: denomIdx(q.PoolCreationFee.Denom), CAmt: q.PoolCreationFee.Amount.BigInt().String()}
 }
 
 func (st Step) coq() string {
@@ -257,6 +278,8 @@ func (st Step) coq() string {
 		return lib.App("MRemoveUni", i(st.A), i(st.D1), i(st.D2), z(st.X1), z(st.X2), lib.Z(st.Deadline))
 	case "send":
 		return lib.App("MSend", i(st.A), i(st.B), i(st.D1), z(st.X1))
+	case "params":
+		return lib.App("MUpdateParams", i(st.A), coqParams(*st.P))
 	}
 	return lib.App("MBlock", lib.Z(st.Dt))
 }
@@ -279,6 +302,8 @@ func (st Step) String() string {
 		return fmt.Sprintf("remove-uni %d pool %s min %s%s liq %s dl %d", st.A, denomName(st.D1), st.X1, denomName(st.D2), st.X2, st.Deadline)
 	case "send":
 		return fmt.Sprintf("send %d->%d %s%s", st.A, st.B, st.X1, denomName(st.D1))
+	case "params":
+		return fmt.Sprintf("update-params by %d fee %s ufee %s tax %s creation %s%s", st.A, st.P.Fee, st.P.UFee, st.P.Tax, st.P.CAmt, denomName(st.P.CDenom))
 	}
 	return fmt.Sprintf("block +%ds", st.Dt)
 }
@@ -391,7 +416,7 @@ func exec(h History) lib.Case {
 		}
 	}
 	header := []string{
-		lib.App("mkParams", lib.ZB(bi(h.Params.Fee)), lib.ZB(bi(h.Params.UFee)), lib.ZB(bi(h.Params.Tax)), lib.Z(int64(h.Params.CDenom)), lib.ZB(bi(h.Params.CAmt))),
+		coqParams(h.Params),
 		lib.Z(w.e.Time.Unix()), coqLed(nz(w.led), order), lib.L(supInit...),
 	}
 	phi := new(big.Int).Sub(p18, bi(h.Params.Fee))
@@ -421,7 +446,9 @@ func exec(h History) lib.Case {
 		for _, p := range w.pools() {
 			ps = append(ps, lib.Pair(lib.Z(int64(p[0])), lib.Z(int64(p[1]))))
 		}
-		obs := lib.App("mkObs", lib.Z(int64(o.Code())), lib.L(respAmounts(w, st, o)...), coqLed(chL, order), lib.L(chS...), lib.L(ps...))
+		parNow := w.params()
+		obs := lib.App("mkObs", lib.Z(int64(o.Code())), lib.L(respAmounts(w, st, o)...), coqLed(chL, order), lib.L(chS...), lib.L(ps...), coqParams(parNow))
+		phi = new(big.Int).Sub(p18, bi(parNow.Fee)) // the fee in force for the next step
 		steps = append(steps, lib.Pair(st.coq(), obs))
 		lib.Stat(c.Stats, "op:"+st.K)
 		lib.Stat(c.Stats, "res:"+o.Kind)
@@ -443,6 +470,9 @@ func exec(h History) lib.Case {
 				double := st.D1 != 0 && st.D2 != 0
 				if st.A != st.B || double {
 					c02nt = true
+				}
+				if st.B > 1000 {
+					lib.Stat(c.Stats, "swap:recipient-is-a-pool")
 				}
 				lib.Stat(c.Stats, fmt.Sprintf("swap:double=%v,other-recipient=%v", double, st.A != st.B))
 				// remainder of the (first) leg's division, from the observed reserves
@@ -472,6 +502,8 @@ func exec(h History) lib.Case {
 						remainder = true
 					}
 				}
+			case "params":
+				lib.Stat(c.Stats, "params:changed")
 			case "add", "rem", "addu", "remu":
 				cp := st.D1
 				if st.K == "rem" {
@@ -486,7 +518,7 @@ func exec(h History) lib.Case {
 					okLiq = true
 				}
 			}
-			if st.K != "block" && st.K != "send" && boundTight(st, ledBefore, led, supBefore, sup, poolsBefore, w.pools()) {
+			if st.K != "block" && st.K != "send" && st.K != "params" && boundTight(st, ledBefore, led, supBefore, sup, poolsBefore, w.pools()) {
 				c02nt = true
 				lib.Stat(c.Stats, "bound:tight")
 			}
